@@ -86,7 +86,7 @@ func (p *Prog) inModule(fn *ssa.Function) bool {
 
 func (p *Prog) relPos(pos token.Pos) string {
 	if !pos.IsValid() {
-		return "?"
+		return "(no position)"
 	}
 	ps := p.Fset.Position(pos)
 	f := strings.TrimPrefix(ps.Filename, p.Root+"/")
